@@ -157,6 +157,7 @@ func judgeRound(c *rt.CaseResult, r *c07Round, extra map[string]any) {
 
 func c07Rounds(tier string, seed int64, idx int, scratch string) rt.CaseResult {
 	var c rt.CaseResult
+	rt.SetWatchdogLimit(25 * time.Second)
 	rng := seqrun.Rng(seed, "C07", idx)
 	env, err := dbx.Open(dbx.Options{Mode: dbx.Inline, Dir: filepath.Join(scratch, "db"), GCPeriod: 20 * time.Millisecond})
 	if err != nil {
